@@ -14,7 +14,7 @@ from sim.core import H, Violation, digest
 ID = "C13"
 LEVEL = "fault_enumeration"
 BATCH = 3
-QUICK_WORLDS = 96
+QUICK_WORLDS = 128
 THOROUGH_BUDGET_S = 900
 RUN_TIMEOUT = 120
 SHRINK_BUDGET_S = 90
